@@ -1193,6 +1193,12 @@ pub fn sched_worker(a: &WorkerArgs) -> WorkerResult {
                 // switch points, a sample of the later ones
                 let stride = if len0 > 300 { (len0 / 40).max(1) } else { 1 };
                 for s in (from..=upto).filter(|s| *s <= 120 || (*s - 120) % stride == 0) {
+                    // (the catalogue may use a third of the time budget, the small scope
+                    // another third; the rest belongs to the generated schedules)
+                    if crate::budget::used(0.33) {
+                        crate::budget::skip();
+                        continue;
+                    }
                     let mut any_used = false;
                     for c in 0..nthreads.saturating_sub(1) {
                         let mut p2 = pre.clone();
@@ -1234,6 +1240,10 @@ pub fn sched_worker(a: &WorkerArgs) -> WorkerResult {
 
     if res.violation.is_none() {
         let result = runner.run(&strategy, |case| {
+            if crate::budget::exhausted() && !acc.borrow().failed {
+                crate::budget::skip();
+                return Ok(());
+            }
             let counting = !acc.borrow().failed;
             if counting {
                 let _ = std::fs::write(&inflight, serde_json::to_vec(&case).unwrap());
@@ -1371,6 +1381,10 @@ fn small_scope(a: &WorkerArgs, prop: &str, inflight: &std::path::Path) -> (u64, 
                         continue;
                     }
                     if (index / a.nworkers + a.seed) % stride != 0 {
+                        continue;
+                    }
+                    if crate::budget::used(0.66) {
+                        crate::budget::skip();
                         continue;
                     }
                     let base = SchedCase { cfg: cfg.clone(), init: init.clone(), threads: vec![p1.clone(), p2.clone()], preempt: vec![], first: 0, patience: 0 };
